@@ -38,6 +38,7 @@ import (
 
 	"rivaas.dev/app"
 	"rivaas.dev/openapi"
+	"rivaas.dev/openapi/example"
 	"rivaas.dev/openapi/validate"
 	"verif/harness/c07/corpus"
 	"verif/harness/hx"
@@ -47,7 +48,7 @@ import (
 // type expressions (serialisable, so that `replay` rebuilds exactly the same reflect.Type)
 
 type TX struct {
-	K string `json:"k"`           // corpus | req | prim | time | nil | ptr | slice | array | map | mapint | struct
+	K string `json:"k"`           // corpus | req | prim | time | nil | data | ptr | slice | array | map | mapint | struct
 	I int    `json:"i,omitempty"` // corpus / req index
 	P string `json:"p,omitempty"` // prim name
 	E *TX    `json:"e,omitempty"`
@@ -87,6 +88,8 @@ func (x *TX) build() reflect.Type {
 		return timeType
 	case "nil":
 		return nil
+	case "data":
+		return reflect.TypeOf(dataPayload(x.I))
 	case "ptr":
 		return reflect.PointerTo(x.E.build())
 	case "slice":
@@ -148,6 +151,60 @@ type respT struct {
 	T      TX  `json:"t"`
 }
 
+// extT is one specification extension: key and index into the payload pool
+type extT struct {
+	K string `json:"k"`
+	P int    `json:"p"`
+}
+
+// exT is one named example: name, summary and index into the payload pool
+type exT struct {
+	Name string `json:"n"`
+	Sum  string `json:"s,omitempty"`
+	P    int    `json:"p"`
+}
+
+// payloads: literal DATA that travels through the generator unchanged (extension values, example
+// values). Many look like JSON Schema / HAL / OpenAPI fragments: `$ref` members (resolvable in the
+// produced document or not), `$id`, `$schema`, `type`, `properties`. They are data, not references.
+var payloadTexts = []string{
+	`{"$ref":"#/definitions/address"}`,
+	`{"fields":{"address":{"$ref":"#/definitions/address"},"name":{"type":"string"}}}`,
+	`{"$ref":"#/components/schemas/NoSuchComponent"}`,
+	`{"$ref":"#/info"}`,
+	`{"$schema":"http://json-schema.org/draft-07/schema#","$id":"urn:x","type":"object","properties":{"a":{"type":"string","$ref":"#/$defs/a"}},"required":["a","a"]}`,
+	`{"_links":{"self":{"href":"/x","$ref":"#/paths/~1nowhere"},"next":null}}`,
+	`[{"$ref":"#/a/b"},1,"s",null,true,{"$ref":"other.json#/x"}]`,
+	`"#/components/schemas/X"`,
+	`42`,
+	`{"type":["string","null"],"enum":[{"$ref":"#/x"}],"default":{"$ref":"#/y"},"nullable":"yes"}`,
+	`{"openapi":"3.0.0","paths":{"/p":{"get":{"responses":{"200":{"$ref":"#/components/responses/Gone"}}}}}}`,
+	`true`,
+	`"plain"`,
+	`{"lang":"curl","source":"curl https://api.example.com/users","n":100,"f":false}`,
+	`[]`,
+	`{}`,
+}
+
+func payload(i int) any {
+	var v any
+	if err := json.Unmarshal([]byte(payloadTexts[i%len(payloadTexts)]), &v); err != nil {
+		panic(err)
+	}
+	return v
+}
+
+// object / array payloads can be the response value itself (type map[string]any / []any): the
+// non-zero value becomes the media type's single `example`
+func dataPayload(i int) any {
+	v := payload(i)
+	switch v.(type) {
+	case map[string]any, []any:
+		return v
+	}
+	return map[string]any{"value": v}
+}
+
 type opT struct {
 	Ctor    string  `json:"c"` // GET, POST, …, TRACE, or "Op:<method>"
 	Path    string  `json:"p"`
@@ -156,16 +213,21 @@ type opT struct {
 	OpID    string  `json:"o,omitempty"`
 	Req     *TX     `json:"r,omitempty"`
 	Resps   []respT `json:"a,omitempty"`
+	Ext     []extT  `json:"x,omitempty"` // openapi.WithOperationExtension
+	// named examples (example.New) of the response with that status, by position in Resps
+	Ex map[int][]exT `json:"e,omitempty"`
 }
 
 type caseT struct {
-	V31    bool  `json:"v31"`
-	Strict bool  `json:"strict"`
-	Ops    []opT `json:"ops"`
-	Pause  bool  `json:"pause,omitempty"` // 1.1 s between two of the generations
-	Exec   bool  `json:"exec,omitempty"`  // one of the generations in a fresh process
-	App    bool  `json:"app,omitempty"`   // also serve the operations from two app instances and compare body and ETag
-	Cold   bool  `json:"cold,omitempty"`  // first-use concurrency: 8 goroutines validate for the first time in a fresh process
+	V31     bool   `json:"v31"`
+	Strict  bool   `json:"strict"`
+	Ops     []opT  `json:"ops"`
+	RootExt []extT `json:"rx,omitempty"`    // openapi.WithExtension
+	InfoExt []extT `json:"ix,omitempty"`    // openapi.WithInfoExtension
+	Pause   bool   `json:"pause,omitempty"` // 1.1 s between two of the generations
+	Exec    bool   `json:"exec,omitempty"`  // one of the generations in a fresh process
+	App     bool   `json:"app,omitempty"`   // also serve the operations from two app instances and compare body and ETag
+	Cold    bool   `json:"cold,omitempty"`  // first-use concurrency: 8 goroutines validate for the first time in a fresh process
 }
 
 func (o *opT) method() string {
@@ -213,10 +275,58 @@ func (o *opT) options() []openapi.OperationOption {
 	if o.Req != nil {
 		opts = append(opts, openapi.WithRequest(zeroOf(o.Req.build())))
 	}
-	for _, r := range o.Resps {
-		opts = append(opts, openapi.WithResponse(r.Status, zeroOf(r.T.build())))
+	for ri, r := range o.Resps {
+		var val any
+		if r.T.K == "data" {
+			val = dataPayload(r.T.I) // a non-zero value: the single example of the media type
+		} else {
+			val = zeroOf(r.T.build())
+		}
+		var exs []example.Example
+		for _, x := range o.Ex[ri] {
+			if x.Sum != "" {
+				exs = append(exs, example.New(x.Name, payload(x.P), example.WithSummary(x.Sum)))
+			} else {
+				exs = append(exs, example.New(x.Name, payload(x.P)))
+			}
+		}
+		opts = append(opts, openapi.WithResponse(r.Status, val, exs...))
+	}
+	for _, x := range o.Ext {
+		opts = append(opts, openapi.WithOperationExtension(x.K, payload(x.P)))
 	}
 	return opts
+}
+
+// apiOptions are the API-level options of a case (version, strict, validation, extensions).
+func (c *caseT) apiOptions(validation bool) []openapi.Option {
+	ver := openapi.V30x
+	if c.V31 {
+		ver = openapi.V31x
+	}
+	opts := []openapi.Option{openapi.WithTitle("t", "1"), openapi.WithVersion(ver),
+		openapi.WithStrictDownlevel(c.Strict), openapi.WithValidation(validation)}
+	for _, x := range c.RootExt {
+		opts = append(opts, openapi.WithExtension(x.K, payload(x.P)))
+	}
+	for _, x := range c.InfoExt {
+		opts = append(opts, openapi.WithInfoExtension(x.K, payload(x.P)))
+	}
+	return opts
+}
+
+// manyExtensions: some object of the case carries two or more extensions (their relative order is
+// then a degree of freedom of the output: byte equality is compared over more repetitions)
+func (c *caseT) manyExtensions() bool {
+	if len(c.RootExt) >= 2 || len(c.InfoExt) >= 2 {
+		return true
+	}
+	for i := range c.Ops {
+		if len(c.Ops[i].Ext) >= 2 {
+			return true
+		}
+	}
+	return false
 }
 
 type result struct {
@@ -261,12 +371,7 @@ func generate(c *caseT, validation bool) (res result) {
 			res = result{kind: "P", cls: fmt.Sprint(p)}
 		}
 	}()
-	ver := openapi.V30x
-	if c.V31 {
-		ver = openapi.V31x
-	}
-	api := openapi.MustNew(openapi.WithTitle("t", "1"), openapi.WithVersion(ver),
-		openapi.WithStrictDownlevel(c.Strict), openapi.WithValidation(validation))
+	api := openapi.MustNew(c.apiOptions(validation)...)
 	r, err := api.Generate(context.Background(), ops...)
 	if err != nil {
 		return result{kind: "E", cls: classify(err)}
@@ -385,9 +490,9 @@ func coldMain() {
 		fmt.Println("cold bad-case")
 		return
 	}
-	ver, vv := openapi.V30x, validate.V30
+	vv := validate.V30
 	if c.V31 {
-		ver, vv = openapi.V31x, validate.V31
+		vv = validate.V31
 	}
 	type prepT struct {
 		api *openapi.API
@@ -395,8 +500,7 @@ func coldMain() {
 	}
 	preps := make([]prepT, coldWorkers)
 	for i := range preps {
-		preps[i].api = openapi.MustNew(openapi.WithTitle("t", "1"), openapi.WithVersion(ver),
-			openapi.WithStrictDownlevel(c.Strict), openapi.WithValidation(true))
+		preps[i].api = openapi.MustNew(c.apiOptions(true)...)
 		for k := range c.Ops {
 			preps[i].ops = append(preps[i].ops, c.Ops[k].construct())
 		}
@@ -522,12 +626,8 @@ func serve(c *caseT) (res servedT) {
 	if port == 0 {
 		return servedT{}
 	}
-	ver := openapi.V30x
-	if c.V31 {
-		ver = openapi.V31x
-	}
 	a, err := app.New(app.WithServiceName("c07"), app.WithHost("127.0.0.1"), app.WithPort(port),
-		app.WithOpenAPI(openapi.WithTitle("t", "1"), openapi.WithVersion(ver), openapi.WithStrictDownlevel(c.Strict)))
+		app.WithOpenAPI(c.apiOptions(false)...))
 	if err != nil {
 		return servedT{}
 	}
@@ -655,29 +755,154 @@ func refsResolve(js []byte) bool {
 		return false
 	}
 	ok := true
-	var walk func(v any)
-	walk = func(v any) {
+	// names: the members of this object are names (property names, component names), not keywords
+	var walk func(v any, names bool)
+	walk = func(v any, names bool) {
 		switch x := v.(type) {
 		case map[string]any:
 			for k, e := range x {
-				if k == "$ref" {
-					if s, isStr := e.(string); isStr {
-						if !resolvePointer(root, s) {
-							ok = false
-						}
+				if !names {
+					// literal data is not a reference position: example payloads, defaults, enum
+					// values and extension values may contain members called "$ref"
+					if k == "example" || k == "examples" || k == "default" || k == "enum" || k == "const" || strings.HasPrefix(k, "x-") {
 						continue
 					}
+					if k == "$ref" {
+						if s, isStr := e.(string); isStr {
+							if !resolvePointer(root, s) {
+								ok = false
+							}
+							continue
+						}
+					}
 				}
-				walk(e)
+				walk(e, !names && (k == "properties" || k == "patternProperties" || k == "schemas" || k == "$defs"))
 			}
 		case []any:
 			for _, e := range x {
-				walk(e)
+				walk(e, false)
 			}
 		}
 	}
-	walk(root)
+	walk(root, false)
 	return ok
+}
+
+// dataIntact: the literal data handed in (extension values, example values) is found unchanged at
+// its place in the produced document. Checked for the API-level extensions always, and for the
+// operations whose place in the document is unambiguous (standard constructor, documented, no other
+// operation with the same converted path and method).
+func dataIntact(c *caseT, js []byte) bool {
+	var root map[string]any
+	if err := json.Unmarshal(js, &root); err != nil {
+		return false
+	}
+	same := func(got any, p int, wrap bool) bool {
+		var want any
+		if wrap {
+			want = dataPayload(p)
+		} else {
+			want = payload(p)
+		}
+		return reflect.DeepEqual(got, want)
+	}
+	last := func(xs []extT) map[string]int {
+		m := map[string]int{}
+		for _, x := range xs {
+			m[x.K] = x.P
+		}
+		return m
+	}
+	for k, p := range last(c.RootExt) {
+		if !same(root[k], p, false) {
+			return false
+		}
+	}
+	info, _ := root["info"].(map[string]any)
+	for k, p := range last(c.InfoExt) {
+		if !same(info[k], p, false) {
+			return false
+		}
+	}
+	convert := func(p string) string {
+		parts := strings.Split(p, "/")
+		for i, part := range parts {
+			if strings.HasPrefix(part, ":") {
+				parts[i] = "{" + part[1:] + "}"
+			}
+		}
+		return strings.Join(parts, "/")
+	}
+	place := func(o *opT) string { return strings.ToLower(o.method()) + " " + convert(o.Path) }
+	count := map[string]int{}
+	for i := range c.Ops {
+		count[place(&c.Ops[i])]++
+	}
+	paths, _ := root["paths"].(map[string]any)
+	for i := range c.Ops {
+		o := &c.Ops[i]
+		switch o.Ctor {
+		case "GET", "POST", "PUT", "PATCH", "DELETE", "HEAD", "OPTIONS":
+		default:
+			continue
+		}
+		if count[place(o)] != 1 || (o.Summary == "" && o.Desc == "" && len(o.Resps) == 0) {
+			continue
+		}
+		item, _ := paths[convert(o.Path)].(map[string]any)
+		op, _ := item[strings.ToLower(o.Ctor)].(map[string]any)
+		if op == nil {
+			return false
+		}
+		for k, p := range last(o.Ext) {
+			if !same(op[k], p, false) {
+				return false
+			}
+		}
+		final := map[int]*respT{}
+		finalEx := map[int][]exT{}
+		repeated := false
+		for k := range o.Resps {
+			if _, dup := final[o.Resps[k].Status]; dup {
+				repeated = true // examples of an earlier WithResponse of the same status persist: not checked
+			}
+			final[o.Resps[k].Status] = &o.Resps[k]
+			finalEx[o.Resps[k].Status] = o.Ex[k]
+		}
+		resps, _ := op["responses"].(map[string]any)
+		if repeated {
+			continue
+		}
+		for st, r := range final {
+			if st == 204 || eff(r.T.build()) == nil {
+				continue
+			}
+			rs, _ := resps[strconv.Itoa(st)].(map[string]any)
+			content, _ := rs["content"].(map[string]any)
+			mt, _ := content["application/json"].(map[string]any)
+			if mt == nil {
+				return false
+			}
+			if len(finalEx[st]) > 0 {
+				exs, _ := mt["examples"].(map[string]any)
+				names := map[string]int{}
+				for _, x := range finalEx[st] {
+					names[x.Name] = x.P
+				}
+				for n, p := range names {
+					ex, _ := exs[n].(map[string]any)
+					if ex == nil || !same(ex["value"], p, false) {
+						return false
+					}
+				}
+			} else if r.T.K == "data" {
+				if !same(mt["example"], r.T.I, true) {
+					return false
+				}
+			}
+		}
+	}
+	return true
 }
 
 func resolvePointer(root any, ref string) bool {
@@ -1029,12 +1254,12 @@ func emit(id string, c *caseT, st *hx.Stats) string {
 	l.Sep()
 	if pending != nil {
 		// what the supervisor reports if the real code kills the process (fatal stack overflow)
-		pending(in + " => P P 0 0 0 1 1 1" + hx.Comment(c))
+		pending(in + " => P P 0 0 0 1 1 1 1" + hx.Comment(c))
 	}
 
 	off := generate(c, false)
 	on := generate(c, true)
-	mv, rr, stable, va, appOK, coldOK := false, false, true, true, true, true
+	mv, rr, stable, va, appOK, coldOK, dataOK := false, false, true, true, true, true, true
 	switch off.kind {
 	case "CP":
 		l.Tok("CP")
@@ -1055,8 +1280,15 @@ func emit(id string, c *caseT, st *hx.Stats) string {
 		if c.Pause {
 			time.Sleep(1100 * time.Millisecond)
 		}
-		again := generate(c, false)
-		stable = again.kind == "D" && bytes.Equal(again.json, off.json)
+		reps := 1
+		if c.manyExtensions() {
+			reps = 10 // the order of k extensions of one object coincides by chance with probability 1/k!
+		}
+		for k := 0; k < reps && stable; k++ {
+			again := generate(c, false)
+			stable = again.kind == "D" && bytes.Equal(again.json, off.json)
+		}
+		dataOK = dataIntact(c, off.json)
 		if stable && c.Exec {
 			stable = execDigest(c) == digest(off.json)
 		}
@@ -1089,7 +1321,7 @@ func emit(id string, c *caseT, st *hx.Stats) string {
 			l.Tok("X")
 		}
 	}
-	l.Bool(mv).Bool(rr).Bool(stable).Bool(va).Bool(appOK).Bool(coldOK)
+	l.Bool(mv).Bool(rr).Bool(stable).Bool(va).Bool(appOK).Bool(coldOK).Bool(dataOK)
 	if st != nil {
 		sh := shapes(e)
 		st.Case(in[len(id):], sh.ptrSliceMap || sh.embed2)
@@ -1104,6 +1336,22 @@ func emit(id string, c *caseT, st *hx.Stats) string {
 			st.Count("strict")
 		}
 		st.Count("ops_" + strconv.Itoa(min(len(c.Ops), 6)))
+		if c.manyExtensions() {
+			st.Count("extensions_2plus_on_one_object")
+		}
+		if len(c.RootExt)+len(c.InfoExt) > 0 {
+			st.Count("api_extensions")
+		}
+		for i := range c.Ops {
+			if len(c.Ops[i].Ex) > 0 {
+				st.Count("named_examples")
+			}
+			for _, r := range c.Ops[i].Resps {
+				if r.T.K == "data" {
+					st.Count("data_example")
+				}
+			}
+		}
 		for k, b := range map[string]bool{"shape_ptr_slice_map": sh.ptrSliceMap, "shape_embed_depth2": sh.embed2,
 			"shape_generic": sh.generic, "shape_recursive": sh.recursive, "shape_name_collision": sh.collision,
 			"shape_time": sh.timeT, "shape_dynamic_anon": sh.dynamic, "pause": c.Pause, "fresh_process": c.Exec} {
@@ -1291,6 +1539,22 @@ func genStruct(r *hx.Rand, d int, req bool) TX {
 	return x
 }
 
+var extKeys = []string{"x-a", "x-b", "x-rate-limit", "x-internal", "x-cost", "x-code-samples", "x-z9"}
+
+func genExts(r *hx.Rand) []extT {
+	n := r.Range(2, 5)
+	if r.Chance(1, 5) {
+		n = 1
+	}
+	keys := append([]string(nil), extKeys...)
+	hx.Shuffle(r, keys)
+	var out []extT
+	for _, k := range keys[:n] {
+		out = append(out, extT{K: k, P: r.Intn(len(payloadTexts))})
+	}
+	return out
+}
+
 func genOp(r *hx.Rand) opT {
 	var o opT
 	switch r.Intn(20) {
@@ -1337,7 +1601,23 @@ func genOp(r *hx.Rand) opT {
 		if r.Chance(1, 100) {
 			st = hx.Pick(r, badStatuses)
 		}
-		o.Resps = append(o.Resps, respT{Status: st, T: genTX(r, 2)})
+		rs := respT{Status: st, T: genTX(r, 2)}
+		if r.Chance(1, 14) {
+			rs.T = TX{K: "data", I: r.Intn(len(payloadTexts))}
+		}
+		if r.Chance(1, 9) {
+			if o.Ex == nil {
+				o.Ex = map[int][]exT{}
+			}
+			for k, m := 0, r.Range(1, 3); k < m; k++ {
+				o.Ex[i] = append(o.Ex[i], exT{Name: hx.Pick(r, []string{"one", "two", "schema-like", "hal"}), P: r.Intn(len(payloadTexts)),
+					Sum: hx.Pick(r, []string{"", "s"})})
+			}
+		}
+		o.Resps = append(o.Resps, rs)
+	}
+	if r.Chance(1, 16) {
+		o.Ext = genExts(r)
 	}
 	return o
 }
@@ -1353,6 +1633,12 @@ func genCase(r *hx.Rand) caseT {
 	}
 	for i := 0; i < n; i++ {
 		c.Ops = append(c.Ops, genOp(r))
+	}
+	if r.Chance(1, 12) {
+		c.RootExt = genExts(r)
+	}
+	if r.Chance(1, 14) {
+		c.InfoExt = genExts(r)
 	}
 	// force overlaps: the same path with another method, or the same method on a near-identical path
 	if len(c.Ops) >= 2 && r.Chance(1, 4) {
@@ -1392,6 +1678,17 @@ func fixedCases() []caseT {
 			// K07b: time.Time example, generations 1.1 s apart and in a fresh process
 			caseT{V31: v31, Pause: true, Exec: true, Ops: []opT{{Ctor: "GET", Path: "/t", Resps: ok(TX{K: "struct",
 				F: []FX{{Name: "When", Tag: `json:"when"`, T: TX{K: "time"}}}})}}},
+			// literal data: several extensions on the root, the info object and an operation; example
+			// payloads that look like schemas / references (they are data: validation must accept them,
+			// reference resolution must not look into them, their bytes must be stable)
+			caseT{V31: v31,
+				RootExt: []extT{{"x-a", 0}, {"x-b", 4}, {"x-rate-limit", 8}, {"x-internal", 11}, {"x-code-samples", 13}},
+				InfoExt: []extT{{"x-a", 9}, {"x-cost", 8}, {"x-z9", 2}},
+				Ops: []opT{
+					{Ctor: "GET", Path: "/forms/:name", Summary: "s", Ext: []extT{{"x-rate-limit", 8}, {"x-internal", 11}, {"x-cost", 1}, {"x-a", 6}},
+						Resps: []respT{{200, TX{K: "data", I: 1}}, {404, ct("pa.Item")}},
+						Ex:    map[int][]exT{1: {{"schema-like", "s", 4}, {"hal", "", 5}}}},
+					{Ctor: "POST", Path: "/forms", Summary: "s", Resps: []respT{{201, TX{K: "data", I: 10}}, {400, TX{K: "data", I: 6}}}}}},
 			// first-use concurrency of validation-on in a fresh process (cold meta-schema cache)
 			caseT{V31: v31, Cold: true, Ops: []opT{{Ctor: "GET", Path: "/ping", Summary: "Ping", Resps: ok(TX{K: "struct",
 				F: []FX{{Name: "OK", Tag: `json:"ok"`, T: TX{K: "prim", P: "bool"}}}})}}},
